@@ -188,26 +188,29 @@ func isComment(node Node) bool {
 	return ok
 }
 
-// firstByte returns the first byte PrettyPrint emits for the node when it is printed as a statement
-// (0 if unknown). Used to keep adjacent statements from merging into one when printed.
-func firstByte(ps *PrintState, node Node) byte {
+// firstByte returns the first byte PrettyPrint emits for the node when it is printed in a context of
+// the given precedence (0 if unknown). Used to keep adjacent statements and operators from merging
+// into something else when printed.
+func firstByte(ps *PrintState, node Node, precedence Priority) byte {
 	switch n := node.(type) {
 	case *InfixExpression:
-		if ps.AllParens {
+		prec := Precedences[n.Type()]
+		if ps.AllParens || prec < precedence {
 			return '('
 		}
-		return firstByte(ps, n.Left)
+		return firstByte(ps, n.Left, prec)
 	case *IndexExpression:
-		if ps.AllParens {
+		prec := Precedences[n.Type()]
+		if ps.AllParens || prec < precedence {
 			return '('
 		}
-		return firstByte(ps, n.Left)
+		return firstByte(ps, n.Left, prec)
 	case *PrefixExpression:
-		if ps.AllParens {
+		if ps.AllParens || PREFIX <= precedence {
 			return '('
 		}
 	case *PostfixExpression:
-		if ps.AllParens {
+		if ps.AllParens || PREFIX < precedence {
 			return '('
 		}
 		if n.Prev != nil && n.Prev.Literal() != "" {
@@ -215,13 +218,13 @@ func firstByte(ps *PrintState, node Node) byte {
 		}
 		return 0
 	case *CallExpression:
-		return firstByte(ps, n.Function)
+		return firstByte(ps, n.Function, CALL)
 	case *FunctionLiteral:
 		if n.IsLambda {
-			if len(n.Parameters) == 1 {
-				return firstByte(ps, n.Parameters[0])
+			if len(n.Parameters) != 1 || precedence >= LAMBDA {
+				return '('
 			}
-			return '('
+			return firstByte(ps, n.Parameters[0], LOWEST)
 		}
 	case *StringLiteral:
 		return '"'
@@ -246,7 +249,7 @@ func prettyPrintCompact(ps *PrintState, s Node, i int) bool {
 		return true
 	}
 	_, prevIsExpr := ps.prev.(*InfixExpression)
-	first := firstByte(ps, s)
+	first := firstByte(ps, s, LOWEST)
 	var last byte
 	if ps.last != "" {
 		last = ps.last[len(ps.last)-1]
@@ -413,7 +416,7 @@ func (i InfixExpression) PrettyPrint(out *PrintState) *PrintState {
 	case out.Compact:
 		out.Print(i.Literal())
 		// a - -b must not become a--b (nor a + +b, a+++b), that'd be a decrement (increment).
-		if lit := i.Literal(); (lit == "-" || lit == "+") && firstByte(out, i.Right) == lit[0] {
+		if lit := i.Literal(); (lit == "-" || lit == "+") && firstByte(out, i.Right, out.ExpressionPrecedence) == lit[0] {
 			out.Print(" ")
 		}
 	default:
